@@ -434,3 +434,93 @@ pub proof fn lemma_er_path(d: Seq<f64>, i0: int, c0: int, f: real)
     assert(d.subrange(i0, c0) + d.subrange(0, i0) =~= ring_win(d, i0, c0));
     lemma_path_triangle(f, ring_win(d, i0, c0));
 }
+
+// ---- range (C09) and flat-window (C08) facts about the window statistics -------------------------------------
+pub open spec fn seq_bounded(w: Seq<f64>, lo: real, hi: real) -> bool { forall|i: int| 0 <= i < w.len() ==> lo <= rv(#[trigger] w[i]) <= hi }
+pub open spec fn seq_const(w: Seq<f64>, c: real) -> bool { forall|i: int| 0 <= i < w.len() ==> rv(#[trigger] w[i]) == c }
+pub proof fn lemma_sum_bounds(w: Seq<f64>, lo: real, hi: real)
+    requires seq_bounded(w, lo, hi)
+    ensures (w.len() as real) * lo <= seq_sum(w) <= (w.len() as real) * hi
+    decreases w.len()
+{
+    if w.len() == 0 {
+        assert(0real * lo == 0real && 0real * hi == 0real) by(nonlinear_arith);
+    } else {
+        assert(seq_bounded(w.drop_last(), lo, hi)) by {
+            assert forall|i: int| 0 <= i < w.len() - 1 implies lo <= rv(#[trigger] w.drop_last()[i]) <= hi by { assert(lo <= rv(w[i]) <= hi); }
+        }
+        lemma_sum_bounds(w.drop_last(), lo, hi);
+        assert(lo <= rv(w[w.len() - 1]) <= hi);
+        let n1 = (w.len() - 1) as real;
+        assert((n1 + 1real) * lo == n1 * lo + lo && (n1 + 1real) * hi == n1 * hi + hi) by(nonlinear_arith);
+    }
+}
+pub proof fn lemma_mean_bounds(w: Seq<f64>, lo: real, hi: real)
+    requires seq_bounded(w, lo, hi), w.len() >= 1
+    ensures lo <= seq_mean(w) <= hi
+{
+    lemma_sum_bounds(w, lo, hi);
+    let (s, n) = (seq_sum(w), w.len() as real);
+    assert(lo <= s / n <= hi) by(nonlinear_arith) requires n >= 1real, n * lo <= s <= n * hi;
+}
+pub proof fn lemma_wsum_bounds(w: Seq<f64>, lo: real, hi: real)
+    requires seq_bounded(w, lo, hi)
+    ensures tri(w.len() as real) * lo <= seq_wsum(w) <= tri(w.len() as real) * hi
+    decreases w.len()
+{
+    if w.len() == 0 {
+        assert(tri(0real) == 0real) by(nonlinear_arith);
+        assert(0real * lo == 0real && 0real * hi == 0real) by(nonlinear_arith);
+    } else {
+        assert(seq_bounded(w.drop_last(), lo, hi)) by {
+            assert forall|i: int| 0 <= i < w.len() - 1 implies lo <= rv(#[trigger] w.drop_last()[i]) <= hi by { assert(lo <= rv(w[i]) <= hi); }
+        }
+        lemma_wsum_bounds(w.drop_last(), lo, hi);
+        let x = rv(w[w.len() - 1]);
+        assert(lo <= x <= hi);
+        let k = w.len() as real;
+        assert(tri(k) == tri(k - 1real) + k) by(nonlinear_arith);
+        let t1 = tri(k - 1real);
+        assert((t1 + k) * lo == t1 * lo + k * lo && (t1 + k) * hi == t1 * hi + k * hi) by(nonlinear_arith);
+        assert(k * lo <= k * x <= k * hi) by(nonlinear_arith) requires k >= 1real, lo <= x <= hi;
+    }
+}
+pub proof fn lemma_wmean_bounds(w: Seq<f64>, lo: real, hi: real)
+    requires seq_bounded(w, lo, hi), w.len() >= 1
+    ensures lo <= seq_wmean(w) <= hi
+{
+    lemma_wsum_bounds(w, lo, hi);
+    lemma_tri_pos(w.len() as real);
+    let (s, t) = (seq_wsum(w), tri(w.len() as real));
+    assert(lo <= s / t <= hi) by(nonlinear_arith) requires t > 0real, t * lo <= s <= t * hi;
+}
+pub proof fn lemma_const_stats(w: Seq<f64>, c: real)
+    requires seq_const(w, c), w.len() >= 1
+    ensures seq_mean(w) == c, seq_sqdev(w, c) == 0real, seq_absdev(w, c) == 0real, seq_popvar(w) == 0real, seq_mad(w) == 0real
+{
+    assert(seq_bounded(w, c, c));
+    lemma_mean_bounds(w, c, c);
+    lemma_const_devs(w, c);
+    let n = w.len() as real;
+    assert(0real / n == 0real) by(nonlinear_arith) requires n >= 1real;
+}
+pub proof fn lemma_const_devs(w: Seq<f64>, c: real)
+    requires seq_const(w, c)
+    ensures seq_sqdev(w, c) == 0real, seq_absdev(w, c) == 0real
+    decreases w.len()
+{
+    if w.len() > 0 {
+        assert(seq_const(w.drop_last(), c)) by {
+            assert forall|i: int| 0 <= i < w.len() - 1 implies rv(#[trigger] w.drop_last()[i]) == c by { assert(rv(w[i]) == c); }
+        }
+        lemma_const_devs(w.drop_last(), c);
+        assert(rv(w[w.len() - 1]) == c);
+        assert((c - c) * (c - c) == 0real) by(nonlinear_arith);
+    }
+}
+pub proof fn lemma_square_zero(a: real)
+    requires a * a == 0real
+    ensures a == 0real
+{
+    if a != 0real { assert(a * a != 0real) by(nonlinear_arith) requires a != 0real; }
+}
